@@ -382,8 +382,8 @@ class FiniteFam:
 class XlsxFaultsFam:
     PROPS = ["C25"]
     LEVEL = "fault_enumeration"
-    ASSUMPTIONS = ["base packages: one exported by the harness from a feature-rich workbook (formulas, arrays, styles, borders, sizes, hidden rows, frozen panes, several sheets with colour/hidden state, global and local names, a hyperlink, a conditional format) and six .xlsx files of the repository's own test data",
-                   "the vocabulary (parts, element and attribute counts) is read from these packages; XlsxFaults.tla enumerates every single fault over at most 12 (thorough 40) positions per part, spread over the part: drop / duplicate / empty an element, drop an attribute, replace its value by one of 6 garbage classes, truncate a part at 1/16, 8/16, 15/16, drop a part, truncate the zip at k/16, flip a byte in each sixteenth; thorough adds pairs of part-level faults and pairs of structural faults on different parts",
+    ASSUMPTIONS = ["base packages: one exported by the harness from a feature-rich workbook (formulas, arrays, styles, borders, sizes, hidden rows, frozen panes, several sheets with colour/hidden state, global and local names, a hyperlink, a conditional format) and eight .xlsx files of the repository's own test data (one with cell comments, one with a custom theme)",
+                   "the vocabulary (parts, element and attribute counts) is read from these packages; XlsxFaults.tla enumerates every single fault over at most 12 (thorough 40) positions per part, spread over the part: drop / duplicate / empty an element, drop an attribute, replace its value by one of 8 garbage classes (empty, negative, huge, letters, fraction, oversized range, an 8-byte string with multi-byte characters, a 1-character string), move an index-like attribute (an integer below 64; at most 3 occurrences of one attribute name per part) up by 1..12 so that it lands one past the end of what it indexes, truncate a part at 1/16, 8/16, 15/16, drop a part, truncate the zip at k/16, flip a byte in each sixteenth; thorough adds pairs of part-level faults and pairs of structural faults on different parts",
                    "each damaged package goes through load_from_xlsx_bytes, Model::from_workbook and evaluate under catch_unwind; a call that does not return within 6 s is a timeout; a process abort is attributed to the slice of 64 plans being processed",
                    "outcome must be ok or err; which one is not judged"]
 
